@@ -8,6 +8,7 @@ package main
 import (
 	"bytes"
 	"context"
+	"encoding/json"
 	"errors"
 	"fmt"
 	"math/rand/v2"
@@ -886,13 +887,46 @@ func exhaustive(L int) []kase {
 	return out
 }
 
+// regression corpus (-in FILE): minimised inputs kept from earlier detections, one JSON object per line
+// {"kind":"printf"|"echo","fmt":...,"args":[...]}; visited first on every seed and tier, same oracles as generated cases.
+func loadCorpus(path string) []kase {
+	if path == "" {
+		return nil
+	}
+	data, err := os.ReadFile(path)
+	if err != nil {
+		fmt.Fprintln(os.Stderr, "corpus:", err)
+		os.Exit(2)
+	}
+	var out []kase
+	for _, line := range strings.Split(string(data), "\n") {
+		line = strings.TrimSpace(line)
+		if line == "" || strings.HasPrefix(line, "#") {
+			continue
+		}
+		var c struct {
+			Kind, Fmt string
+			Args      []string
+		}
+		if err := json.Unmarshal([]byte(line), &c); err != nil || (c.Kind != "printf" && c.Kind != "echo") {
+			fmt.Fprintf(os.Stderr, "corpus: bad line %q: %v\n", line, err)
+			os.Exit(2)
+		}
+		if c.Args == nil {
+			c.Args = []string{}
+		}
+		out = append(out, kase{Kind: c.Kind, Fmt: c.Fmt, Args: c.Args, Stream: "regress"})
+	}
+	return out
+}
+
 func main() {
 	o := hx.ParseArgs()
 	defer hx.Flush()
 	var cases []kase
 	switch o.Mode {
 	case "gen":
-		cases = generate(o.Seed, o.N)
+		cases = append(loadCorpus(o.In), generate(o.Seed, o.N)...)
 	case "exhaustive":
 		cases = exhaustive(o.N)
 	default:
